@@ -7,7 +7,7 @@
    clone/drop/gc is the specification correspondence of this property's profile. *)
 From Coq Require Import List Arith Bool.
 Import ListNotations.
-From Sodium Require Import Gc GcExactBase GcExactInv GcExact GcHeap Heap HeapFacts.
+From Sodium Require Import Gc GcExactBase GcExactInv GcExact GcHeap Heap HeapFacts HeapGhost.
 
 (* through ANY contract-respecting interleaving of handle clones, drops, edge changes, transient upgrades
    and collections, an object reachable from a held handle is never freed *)
@@ -62,6 +62,15 @@ Theorem C06_program_held_never_freed : forall ops st,
     forall h o, In h (held st) -> reach (E (g (hs st))) h o -> freed (get (g (hs st)) o) = false.
 Proof. exact program_held_never_freed. Qed.
 Print Assumptions C06_program_held_never_freed.
+
+(* the model's ghost handles (its way of navigating cell -> updates stream under Gc.v's ownership contract) never keep
+   anything alive that the handles the program really holds would not keep alive: the live heap is the one the view shows *)
+Theorem C06_ghosts_do_not_extend_life : forall ops st,
+    hrun hinit ops = Ok st ->
+    forall o, (exists h, In h (held st) /\ reach (E (g (hs st))) h o) <->
+              (exists h, In h (real_held st) /\ reach (E (g (hs st))) h o).
+Proof. exact ghosts_do_not_extend_life. Qed.
+Print Assumptions C06_ghosts_do_not_extend_life.
 
 (* non-vacuity: an accumulator over a sink, listened to, then the sink's handle dropped and a collection run: the
    sink (object 0) is still held up by the accumulator's snapshot node and is not freed *)
